@@ -144,8 +144,13 @@ class CFG:
         return n
 
     # ---------------------------------------------------------------- queries
-    def stmt_nodes(self) -> Iterable[Node]:
-        return (n for n in self.nodes if n.kind in ("stmt", "test", "iter"))
+    def stmt_nodes(self, include_dead: bool = False) -> Iterable[Node]:
+        """statement nodes; dead code (no path from the entry, e.g. a return after an if whose arms both return) is
+        left out: nothing can be demanded of it and nothing it does matters"""
+        if include_dead:
+            return (n for n in self.nodes if n.kind in ("stmt", "test", "iter"))
+        live = self.facts()
+        return (n for n in self.nodes if n.kind in ("stmt", "test", "iter") and live.get(n.id) is not None)
 
     def node_for(self, st: ast.AST) -> int:
         return self.node_of_stmt[id(st)]
